@@ -191,7 +191,12 @@ pub trait ByteReader {
         Self: Sized,
         D: Deserializable,
     {
-        let mut result = Vec::with_capacity(num_elements);
+        // `num_elements` usually comes from untrusted input: cap the pre-allocation so that a
+        // bogus count results in an error from the reads below rather than in a capacity overflow
+        // panic or an allocation failure
+        const MAX_PREALLOC_BYTES: usize = 1 << 20;
+        let max_prealloc = MAX_PREALLOC_BYTES / core::cmp::max(core::mem::size_of::<D>(), 1);
+        let mut result = Vec::with_capacity(core::cmp::min(num_elements, max_prealloc));
         for _ in 0..num_elements {
             let element = D::read_from(self)?;
             result.push(element)
